@@ -289,3 +289,76 @@ func (e *Env) forAllIn(ob *core.Obligation, g *core.XG, la core.LoopAt, action *
 	}
 	return true
 }
+
+// ensureBeforeRename (C01.R5, shared as C09.R2): the existence test over ALL declared outputs has completed on every
+// path before the FIRST rename: finalisation is all-or-nothing with respect to a missing output ("check each, rename
+// each" publishes the outputs that precede the missing one before the task fails).
+func (e *Env) ensureBeforeRename(rule, key string) {
+	sp := e.spine()
+	if sp == nil {
+		return
+	}
+	g := sp.g
+	ob := e.R.Ob(rule, key, "the existence test over all declared outputs has completed on every path before the first rename (no output of a task with a missing output is published)")
+	ensureExit := map[*core.Node]bool{}
+	for _, s := range sp.ensureStat {
+		ex, _ := loopExitNodes(g, s)
+		for _, x := range ex {
+			ensureExit[x] = true
+		}
+	}
+	must := g.Forward(func(n *core.Node) core.Transfer {
+		if ensureExit[n] {
+			return core.Transfer{Gen: 1}
+		}
+		return core.Transfer{}
+	}, true)
+	renames := append(append([]*core.Node{}, sp.declRename...), sp.extraRename...)
+	for _, n := range renames {
+		ob.Check(must[n]&1 != 0, g.Where(n), "ensure loop completed before rename", "a path reaches os.Rename without the completed existence test: outputs that are checked (and renamed) before a missing one are already at their final paths when the task fails")
+	}
+	if len(renames) == 0 || len(sp.ensureStat) == 0 {
+		ob.Unknown("-", "existence test or rename not found in Execute's call tree")
+	}
+}
+
+// auditBeforeRename (C03.R3 = C11.R4, shared as C10.R7): for every output that is going to be renamed the audit record
+// is on disk next to the final path before the first rename.
+func (e *Env) auditBeforeRename(rule, key string) {
+	sp := e.spine()
+	if sp == nil {
+		return
+	}
+	g := sp.g
+	ob := e.R.Ob(rule, key, "the audit record of every output is written next to its final path before the first output is renamed: a finalised output is never without its record, whenever the run dies")
+	auditExit := map[*core.Node]bool{}
+	for _, s := range sp.auditWrite {
+		top := s
+		for top.Ctx.Parent != nil && top.Ctx.CallNode != nil && core.InnermostLoop(top.Instr) == nil {
+			top = top.Ctx.CallNode
+		}
+		ex, _ := loopExitNodes(g, top)
+		for _, x := range ex {
+			auditExit[x] = true
+		}
+	}
+	must := g.Forward(func(n *core.Node) core.Transfer {
+		if auditExit[n] {
+			return core.Transfer{Gen: 1}
+		}
+		return core.Transfer{}
+	}, true)
+	for _, n := range append(append([]*core.Node{}, sp.declRename...), sp.extraRename...) {
+		ob.Check(must[n]&1 != 0, g.Where(n), "audit written for all outputs first", "a path reaches os.Rename before the audit records are on disk: a death in between leaves a final output without record, which a later run adopts as finished")
+	}
+	if len(sp.auditWrite) == 0 || len(sp.declRename) == 0 {
+		ob.Unknown("-", "audit write or rename not found in Execute's call tree")
+		return
+	}
+	isAW := nodeSet(sp.auditWrite)
+	for _, s := range sp.auditWrite {
+		if !e.forAllOutputs(ob, g, s, func(m *core.Node) bool { return isAW[m] }, core.Scenario{FieldLoad: e.assumeStream(false)}, "writing the audit record next to the final path") {
+			break
+		}
+	}
+}
